@@ -59,7 +59,7 @@ CHECKS = {
          "over-approximation of dirty is allowed by the statement and never reported", "§6 C17"),
  "C18": ("per-step Hoare monitor: closed-form HT/HTS/TBC; every width 1..=140 enumerated",
          "exploration with an exhaustive sub-domain: default stops and HT from every column incl. pending wrap for every width 1..=140; random HTS/TBC sequences followed by an HT walk; width changes between setting and using a stop",
-         "stops at or beyond the right edge are unobservable until the screen grows and are not compared", "§6 C18"),
+         "the stop set is observed through the public tabstops field and compared exactly, also beyond the right edge", "§6 C18"),
  "C19": ("generated OSC strings with the expected title/icon known by construction, real Screen, all terminators/introducers/cuts",
          "exploration with an exhaustive sub-domain: 2 introducers x 19 codes x 3 terminators x 108 payloads incl. every printable ASCII singleton, every 2-way cut for codes 0/1/2, Parser and ByteParser; random payloads up to 4096 characters",
          "codes R and P excluded (see C03)", "§6 C19"),
